@@ -15,10 +15,18 @@ def one(name):
         r = subprocess.run(["git", "-C", wt, "apply", os.path.join(d, "patch.diff")], capture_output=True, text=True)
         if r.returncode:
             return name, None, "patch does not apply to HEAD"
-        p = subprocess.run(["./check", prop, "--tier", "quick"], cwd=V, env=dict(os.environ, RV_REPO=wt, RV_JOBS="4"),
-                           capture_output=True, text=True)
-        mechs = sorted(set(re.findall(r"violated \[([^\]]+)\]", p.stdout)))
-        return name, p.returncode, mechs[:4]
+        meta = json.load(open(os.path.join(d, "meta.json")))
+        props = [prop] + [c for c in meta.get("my_checks", {}) if c != prop]
+        rc, mechs = 0, []
+        for c in props:
+            p = subprocess.run(["./check", c, "--tier", "quick"], cwd=V,
+                               env=dict(os.environ, RV_REPO=wt, RV_JOBS="4"), capture_output=True, text=True)
+            if p.returncode == 1:
+                rc = 1
+                mechs += [c + ":" + m for m in sorted(set(re.findall(r"violated \[([^\]]+)\]", p.stdout)))[:3]]
+                break
+            rc = rc or p.returncode
+        return name, rc, mechs[:4]
     finally:
         subprocess.run(["git", "-C", "/repo", "worktree", "remove", "--force", wt], capture_output=True)
         shutil.rmtree(wt, ignore_errors=True)
@@ -34,8 +42,7 @@ with cf.ThreadPoolExecutor(6) as ex:
         if rc is not None:
             p = os.path.join(V, "seeded", name, "meta.json")
             m = json.load(open(p))
-            m.setdefault("my_checks", {})[name[:3]] = {"tier": "quick", "exit": rc, "mechanisms": info if isinstance(info, list) else [],
-                                                      "first": m.get("my_checks", {}).get(name[:3], {}).get("first", "")}
             m["caught"] = rc == 1
+            m["last_recheck"] = {"exit": rc, "mechanisms": info if isinstance(info, list) else []}
             json.dump(m, open(p, "w"), indent=1); open(p, "a").write("\n")
 print("not caught:", bad)
